@@ -63,7 +63,7 @@ impl Value {
 
     pub fn try_negate(&self) -> Result<Option<Self>> {
         match self {
-            Self::Number(number) => Ok(number.negate().map(Value::Number)),
+            Self::Number(number) => Ok(number.negate()?.map(Value::Number)),
             Self::MathExpr(expr) => {
                 let x = expr.try_constexpr_eval()?;
 
